@@ -141,7 +141,11 @@ func Discharge(obls []*Obl, timeoutS int, confirm bool, workers int) (disagreeme
 			defer wg.Done()
 			for i := range jobs {
 				o := obls[i]
-				best, all := decide(dir, i, o.Query(true), timeoutS, confirm)
+				tmo := timeoutS
+				if o.TimeoutS > 0 {
+					tmo = o.TimeoutS
+				}
+				best, all := decide(dir, i, o.Query(true), tmo, confirm)
 				o.Result, o.Solver, o.TimeS = best.status, best.solver, best.secs
 				if best.status != "unsat" && best.status != "sat" && strings.Contains(o.Query(false), "(forall ") {
 					// undecided with quantified hypotheses: look for a candidate
